@@ -1,12 +1,12 @@
 CONSTANTS
-  MinItems = 0
-  NC = 1
-  L = 5
-  MaxItems = 3
-  MaxPerChrom = 3
-  Vals = {1, 2}
+  MinItems = 5
+  NC = 2
+  L = 12
+  MaxItems = 8
+  MaxPerChrom = 7
+  Vals = {1, 2, 3}
   IPS = {1, 2}
-  ZoomLists = "c"
+  ZoomLists = "a"
 INIT Init
 NEXT Next
 INVARIANTS MechRoundTrip MechZoom Emit
